@@ -72,10 +72,17 @@ def task(item):
         inputs = {'shape': shape, 'position': pos, 'value': rt.show(v)}
         try:
             inst = rt.instantiate(u.pkg, u.api, t, v)
+        except Exception as e:  # noqa   (C08 reports values that the generated classes refuse)
+            oc['not-constructible'] += 1
+            continue
+        try:
             enc_obj = u.ss.json_compat_obj_encode(val, inst)
             enc_str = u.ss.json_encode(val, inst)
-        except Exception as e:  # noqa   (C05/C08 report construction and encoding problems)
-            oc['not-encodable'] += 1
+        except Exception as e:  # noqa
+            # a valid value that was built through the public constructors has no encoding: there is nothing to decode
+            oc['encode-raised'] += 1
+            out_v.append(viol('%s:%s' % (rtbase.runtime_identity(e, 'encode-raised'), rtbase.shape_kind(shape)),
+                              'encoding a valid value raised %r (%s at %s)' % (e, rt.show(v), shape), inputs, repr(e)))
             continue
         exp = expected_readback(u.api, t, v)
         collapsing = has_collapsing_member(u.api, t, v)
